@@ -3,6 +3,7 @@ package erange
 import (
 	"fmt"
 	"go/types"
+	"math"
 	"math/big"
 	"os"
 	"sort"
@@ -39,6 +40,8 @@ type FieldBackend struct {
 	InnerT   *types.Array
 	H        []*big.Int // headroom: inclusive upper bound of each input limb
 	HDoc     string
+	D        []*big.Int // declared (documented) bound of a reduced output limb
+	DDoc     string
 }
 
 func resolveBackend(p *load.Program) (*FieldBackend, error) {
@@ -79,6 +82,13 @@ func resolveBackend(p *load.Program) (*FieldBackend, error) {
 			be.H = append(be.H, pow2m1(bits))
 		}
 		be.HDoc = fmt.Sprintf("every input limb < 2^%d (field_u64.go: limbs < 2^(51+b), b < 3)", bits)
+		// reduce: "The biggest carry-in is c4 * 19, resulting in 2^51 + 19*2^13";
+		// feMulGeneric: "fe[1] < 2^51 + 2^13 ... fe[i] < 2^(51 + epsilon)"
+		d := new(big.Int).Add(pow2(51), new(big.Int).Mul(big.NewInt(19), pow2(13)))
+		for i := 0; i < 5; i++ {
+			be.D = append(be.D, d)
+		}
+		be.DDoc = "reduced limb <= 2^51 + 19*2^13 (field_u64.go reduce: \"2^51 + 19*2^13 < 2^51.0000000001\"; feMulGeneric: \"fe[1] < 2^51 + 2^13\")"
 	case b.Kind() == types.Uint32 && be.Limbs == 10:
 		be.Name, be.LimbBits = "u32", 32
 		even := new(big.Int).Quo(pow2m1(32), big.NewInt(19))
@@ -96,6 +106,17 @@ func resolveBackend(p *load.Program) (*FieldBackend, error) {
 				be.H = append(be.H, odd)
 			}
 		}
+		// reduce: "Now z[4] < 2^26 and z[5] < 2^25 + 2^13.0002 < 2^25.0004",
+		// "Now z[1] < 2^25 - 2^(43.249 - 26) < 2^25.007 (good enough)"
+		dOdd, _ := new(big.Float).SetFloat64(math.Pow(2, 25.007)).Int(nil)
+		for i := 0; i < 10; i++ {
+			if i%2 == 0 {
+				be.D = append(be.D, pow2m1(26))
+			} else {
+				be.D = append(be.D, dOdd)
+			}
+		}
+		be.DDoc = fmt.Sprintf("reduced even limb < 2^26, reduced odd limb < 2^25.007 = %v (field_u32.go reduce: \"z[1] < ... < 2^25.007 (good enough)\")", dOdd)
 		be.HDoc = fmt.Sprintf("even limbs <= %v = floor((2^32-1)/19) (~2^%.3f), odd limbs <= %v (field_u32.go: limbs < 2^(26+b) / 2^(25+b), 19*y fits a u32 iff b < 1.752)",
 			even, log2(even), odd)
 	default:
@@ -123,14 +144,15 @@ func (be *FieldBackend) limbIndex(pointee types.Type, path []int) (int, bool) {
 type primKind int
 
 const (
-	kindReducing    primKind = iota // output must re-establish the headroom after one Add (default, strictest)
+	kindReducing    primKind = iota // output is a reduced element: limbs within the documented bound D (default, strictest)
+	kindDoubling                    // output is twice a reduced element (64-bit Square2)
 	kindAdditive                    // output = sum of inputs (Add)
 	kindPassthrough                 // output is one of the inputs (Conditional*, Set)
 	kindConstructor                 // output is whatever the caller passes (NewElement*, UnsafeInner)
 )
 
 func (k primKind) String() string {
-	return [...]string{"reducing", "additive", "pass-through", "constructor"}[k]
+	return [...]string{"reducing", "doubling", "additive", "pass-through", "constructor"}[k]
 }
 
 // primOverride adjusts the default specification of a primitive.
@@ -159,6 +181,7 @@ func primOverrides(be *FieldBackend) map[string]primOverride {
 		"fePow2kGeneric":    {intPre: map[int]Itv{2: one}, note: "k >= 1 (documented: \"given k > 0\"; Pow2k panics on 0)"},
 	}
 	if be.Name == "u64" {
+		m["Square2"] = primOverride{kind: kindDoubling, note: "fe = 2*t^2 doubles the limbs of a reduced square without carrying: declared bound 2*D"}
 		m["reduce"] = primOverride{rawAny: true, note: "raw limbs: any uint64 (documented: \"input limbs are bounded by 2^64\")"}
 	} else {
 		m["reduce"] = primOverride{inlineOnly: "not total on arbitrary uint64 limbs (z[i+1] += z[i]>>26 needs headroom): analysed inlined at every call site with the caller's intervals"}
